@@ -36,19 +36,25 @@ def configs(ctx):
                         out.append(dict(move="pg", npts=npts, kind=kind, prop_op=pop, data_op=dop, N=n, thr=t, alpha=a, wiring=wiring))
     # tied weights at the "always resample" threshold (regression for the relative-ESS round-off finding)
     out.append(dict(move="pg", npts=2, kind="fully-adapted", prop_op=0.1, data_op=0.2, N=3, thr=1.0, alpha=2.5, wiring="library", flat_only=True))
+    # three data points (since the enumerator merges equal shuffle outcomes these are seconds each)
+    for kind in KINDS:
+        for (dop, pop) in ((0.0, 0.0), (0.2, 0.1)):
+            for wiring in ("library", "run"):
+                n, t = ctx.rng.choice([(2, 0.5), (2, 1.0), (2, 0.0)]) if ctx.quick else (2, 0.5)
+                out.append(dict(move="pg", npts=3, kind=kind, prop_op=pop, data_op=dop, N=n, thr=t, alpha=ctx.rng.choice([0.3, 1.0, 2.5]), wiring=wiring))
+                if not ctx.quick:
+                    out.append(dict(move="pg", npts=3, kind=kind, prop_op=pop, data_op=dop, N=3, thr=ctx.rng.choice([0.0, 1.0]), alpha=ctx.rng.choice([0.3, 2.5]), wiring=wiring))
     if not ctx.quick:
-        # three data points: selected configurations (minutes each)
+        # four data points: 262 states without outliers
         for kind in KINDS:
-            for (dop, pop) in ((0.0, 0.0), (0.2, 0.1)):
-                out.append(dict(move="pg", npts=3, kind=kind, prop_op=pop, data_op=dop, N=2, thr=0.5, alpha=1.0, wiring="library"))
-                out.append(dict(move="pg", npts=3, kind=kind, prop_op=pop, data_op=dop, N=2, thr=0.5, alpha=1.0, wiring="run"))
+            out.append(dict(move="pg", npts=4, kind=kind, prop_op=0.0, data_op=0.0, N=2, thr=0.5, alpha=1.0, wiring=ctx.rng.choice(["library", "run"])))
     return out
 
 
 def run(ctx):
     coq.check_property_file(ctx)
     ctx.rule = (
-        "exact transition matrix of ParticleGibbsTreeSampler.sample_tree from EVERY start tree over 1-2 (thorough: 3) data points, "
+        "exact transition matrix of ParticleGibbsTreeSampler.sample_tree from EVERY start tree over 1-3 (thorough: 4) data points, "
         "every random outcome enumerated (permutation, proposals, resampling, final selection), for proposal kind x outliers on/off x "
         "run.py wiring vs library wiring (RootPermutationDistribution) x (particles, threshold, alpha) drawn from a grid by the seed; "
         "checked: max|pi P - pi| <= 1e-9 with pi from TreeJointDistribution.log_p_one, row sums = 1, no exception on any path; "
@@ -61,10 +67,10 @@ def run(ctx):
     try:
         for cfg in cfgs:
             npts = cfg["npts"]
-            for flat in ((True,) if cfg.get("flat_only") else (False,) if ctx.quick or npts == 3 else (False, True)):
+            for flat in ((True,) if cfg.get("flat_only") else (False,) if ctx.quick or npts >= 3 else (False, True)):
                 key = (npts, flat)
                 if key not in datasets:
-                    datasets[key] = rational_values(ctx.rng, npts, 2 if flat else (1 if npts == 3 else ctx.rng.choice([1, 2])), 3 if npts == 3 else 4, flat=flat)
+                    datasets[key] = rational_values(ctx.rng, npts, 2 if flat else (1 if npts >= 3 else ctx.rng.choice([1, 2])), 3 if npts >= 3 else 4, flat=flat)
                 vals = datasets[key]
                 t = time.time()
                 res = transition_matrix(vals, cfg["data_op"], cfg, pool=pool)
